@@ -9,14 +9,20 @@ PROPERTY = {
     'type agrees with the node\'s kind/tag (shape_ok) and is a registered '
     'concrete class or a built-in (concrete_ok).  With E-CONSTRUCT (PyYAML '
     'constructs by tag) this gives conformance of scalars, lists and dicts; '
-    'for class attributes the Constructor\'s own type check is the guard '
-    '(not yet under contract).',
+    'for class attributes Constructor.__call__ is verified to run the '
+    'user\'s __init__ only on a mapping that passed its checks: '
+    '__type_matches(obj, t) == tm(obj, t) (the statement\'s conformance, '
+    'element-wise for lists/dicts, some member for unions), every required '
+    'parameter present, every present argument conforming to the '
+    'parameter\'s type and annotation, no unknown keys unless the class '
+    'takes _yatiml_extra.',
     'trusted': LOAD_TRUSTED,
     'assumptions': [],
 }
 
 
 def check(run):
-    from checks.main import reflection_bounded
+    from checks.main import reflection_bounded, splitoff_bounded
     reflection_bounded(run)
+    splitoff_bounded(run)
     run.verify_functions(RECOGNIZER + LOADER + STRIP + CONSTR)
